@@ -126,7 +126,16 @@ fn dump<'tcx>(tcx: TyCtxt<'tcx>, name: &str, out_dir: &str) {
         }
         let steal = tcx.mir_built(def);
         if steal.is_stolen() {
-            stolen.push(jstr(&path_of(tcx, def.to_def_id())));
+            // Building another body revealed an opaque type defined here, which ran borrowck
+            // on this function and consumed its built MIR.  `mir_promoted` (built MIR + constant
+            // promotion + initial CFG simplification, still before borrowck cleanup) is still
+            // readable in that case and has the same shape for our purposes.
+            let (promoted, _) = tcx.mir_promoted(def);
+            if promoted.is_stolen() {
+                stolen.push(jstr(&path_of(tcx, def.to_def_id())));
+                continue;
+            }
+            bodies.push((def, kind, promoted.borrow().clone()));
             continue;
         }
         bodies.push((def, kind, steal.borrow().clone()));
